@@ -4,8 +4,16 @@
    the model's algorithms: the stream is cut into per-key *segments*, and the
    record of a segment is given field by field ("last status given", "latest
    tags", "first / final timestamp", "non-empty chunks of each file name
-   concatenated in arrival order, typed by the first"). *)
-From Coq Require Import String.
+   concatenated in arrival order, typed by the first").
+
+   What the statement fixes and what it leaves open.  A test is reported "when its
+   final status arrives, or as incomplete when the run stops": the reports made
+   before stopTestRun are therefore in the order of the final-status events.  The
+   statement says nothing about the ORDER in which stopTestRun reports several
+   incomplete tests, so everything stopTestRun produces (on_test dicts, entries
+   added to the StreamSummary lists, per-test blocks of calls on the extended
+   result) is specified as a MULTISET: up to a permutation of whole tests. *)
+From Coq Require Import String Permutation.
 From TT Require Import Lib.Base Lib.Bytestr Model.StreamRec.
 Open Scope list_scope.
 
@@ -25,6 +33,20 @@ Definition spec_outcome (st : status) : option outcome :=
 (* a test with one of these statuses makes the run unsuccessful *)
 Definition failing (st : status) : bool :=
   match st with Fail | Inprogress | Unknown => true | _ => false end.
+
+(* ---------- comparing lists as multisets ---------- *)
+Fixpoint remove1 {A} (eqb : A -> A -> bool) (x : A) (l : list A) : option (list A) :=
+  match l with
+  | [] => None
+  | y :: r => if eqb x y then Some r
+              else match remove1 eqb x r with Some r' => Some (y :: r') | None => None end
+  end.
+(* l1 is a permutation of l2 *)
+Fixpoint perm_eqb {A} (eqb : A -> A -> bool) (l1 l2 : list A) : bool :=
+  match l1 with
+  | [] => match l2 with [] => true | _ => false end
+  | x :: r => match remove1 eqb x l2 with Some l2' => perm_eqb eqb r l2' | None => false end
+  end.
 
 Section SegSpec.
   Variable M : Type.
@@ -73,7 +95,8 @@ Section SegSpec.
 
   Fixpoint segments (open : list (key * list event)) (evs : list event) : list segment :=
     match evs with
-    | [] => map (fun ks => Seg (fst ks) true (snd ks)) (rev open)        (* reported at stopTestRun, last opened first *)
+    | [] => map (fun ks => Seg (fst ks) true (snd ks)) (rev open)        (* what is still open when the run stops; the
+                                                                            order of this part is immaterial below *)
     | e :: r =>
         match e_id e with
         | None => segments open r
@@ -86,8 +109,14 @@ Section SegSpec.
     end.
 
   Definition record_of (g : segment) : rcd := seg_record (fst (g_key g)) (g_hung g) (g_events g).
-  (* the tests of a stream, in the order in which they must be reported *)
+  (* the tests of a stream: first those that end with a final status, in the order of those events, then
+     (in one of the allowed orders) those that never got one *)
   Definition tests (evs : list event) : list rcd := map record_of (segments [] evs).
+  (* the tests that must be reported on the way, in this order ... *)
+  Definition completed (g : segment) : bool := negb (g_hung g).
+  Definition done_tests (evs : list event) : list rcd := map record_of (filter completed (segments [] evs)).
+  (* ... and the tests that must be reported by stopTestRun, in ANY order *)
+  Definition hung_tests (evs : list event) : list rcd := map record_of (filter g_hung (segments [] evs)).
 
   (* what StreamToExtendedDecorator must make of one test (tags() calls on the
      target are not part of the statement; the tags current at the outcome are) *)
@@ -100,13 +129,24 @@ Section SegSpec.
 
   Definition ext_expected (evs : list event) : list (logev CT) :=
     [LStartRun] ++ flat_map bracket (tests (filter not_exists evs)) ++ [LStopRun].
+
+  (* cutting a log into per-test blocks: a block ends with its stopTest call.
+     Result: the complete blocks and what follows the last of them. *)
+  Definition is_stoptest (l : logev CT) : bool := match l with LStopTest _ => true | _ => false end.
+  Fixpoint blocks (cur : list (logev CT)) (log : list (logev CT)) : list (list (logev CT)) * list (logev CT) :=
+    match log with
+    | [] => ([], cur)
+    | x :: r => if is_stoptest x then let (bs, rest) := blocks [] r in ((cur ++ [x]) :: bs, rest)
+                else blocks (cur ++ [x]) r
+    end.
 End SegSpec.
 
 Arguments somes {M A}. Arguments chunk_of {M}. Arguments chunks {M}. Arguments named {M}.
 Arguments file_of {M CT}. Arguments files {M CT}. Arguments seg_record {M CT}.
 Arguments Seg {M}. Arguments g_key {M}. Arguments g_hung {M}. Arguments g_events {M}.
 Arguments segments {M}. Arguments record_of {M CT}. Arguments tests {M CT}.
-Arguments bracket {CT}. Arguments ext_expected {M CT}.
+Arguments completed {M}. Arguments done_tests {M CT}. Arguments hung_tests {M CT}.
+Arguments bracket {CT}. Arguments ext_expected {M CT}. Arguments is_stoptest {CT}. Arguments blocks {CT}.
 
 (* ---------- C10's instance: mime types and content types are codes ---------- *)
 (* code 0 is application/octet-stream, which is also what mime_type=None means *)
@@ -117,14 +157,19 @@ Definition lev := logev nat.
 
 Record input := { evs : list ev }.
 
-(* StreamSummary's public attributes after stopTestRun (lists as test ids) *)
-Record sumobs := { so_run : nat; so_failures : list nat; so_errors : list nat; so_skipped : list nat;
-                   so_xfail : list nat; so_uxs : list nat; so_ok : bool }.
+(* StreamSummary's public counters and lists (lists as test ids) *)
+Record sumlists := { sl_run : nat; sl_failures : list nat; sl_errors : list nat; sl_skipped : list nat;
+                     sl_xfail : list nat; sl_uxs : list nat }.
 
+(* The observation separates what was reported BEFORE stopTestRun was called from what stopTestRun added. *)
 Record obs := {
-  o_dicts : list rec;       (* StreamToDict: the dicts handed to on_test, in call order *)
-  o_sum : sumobs;           (* StreamSummary *)
-  o_ext : list lev          (* StreamToExtendedDecorator: log of the extended result *)
+  o_dicts : list rec;       (* StreamToDict: the dicts handed to on_test before stopTestRun, in call order *)
+  o_flush : list rec;       (* ... and those handed to on_test by stopTestRun, in call order *)
+  o_pre : sumlists;         (* StreamSummary: testsRun and the lists just before stopTestRun *)
+  o_sum : sumlists;         (* ... and after it *)
+  o_ok : bool;              (* wasSuccessful() after stopTestRun *)
+  o_ext : list lev;         (* StreamToExtendedDecorator: log of the extended result before stopTestRun *)
+  o_extflush : list lev     (* ... and what stopTestRun appended to it *)
 }.
 
 (* ---------- comparisons ---------- *)
@@ -151,39 +196,77 @@ Definition ids_with (p : status -> bool) (ts : list rec) : list nat :=
   map r_id (filter (fun r => p (r_status r)) ts).
 Definition is_st (s : status) : status -> bool := status_eqb s.
 Definition incomplete (s : status) : bool := match s with Inprogress | Unknown => true | _ => false end.
+Definition no_st (s : status) : bool := false.
+Definition counted (r : rec) : bool := negb (status_eqb (r_status r) Exists).
 
-Definition summary_okb (ts : list rec) (so : sumobs) : bool :=
+(* one StreamSummary list: before stopTestRun it holds, in order, the tests reported on the way whose status
+   names it; stopTestRun appends the incomplete tests whose status names it, in any order *)
+Definition bucket_okb (dn hg : list rec) (p : status -> bool) (pre fin : list nat) : bool :=
+  ids_eqb pre (ids_with p dn)
+  && ids_eqb (firstn (List.length pre) fin) pre
+  && perm_eqb Nat.eqb (skipn (List.length pre) fin) (ids_with p hg).
+
+Definition summary_okb (dn hg : list rec) (pre fin : sumlists) (ok : bool) : bool :=
   (* testsRun counts the reported tests whose status is not 'exists' *)
-  Nat.eqb (so_run so) (List.length (filter (fun r => negb (status_eqb (r_status r) Exists)) ts))
+  Nat.eqb (sl_run pre) (List.length (filter counted dn))
+  && Nat.eqb (sl_run fin) (List.length (filter counted dn) + List.length (filter counted hg))
   (* each test is in exactly the list its status names, none for success / exists;
      a 'fail' test is in exactly one of errors / failures, an incomplete one in errors *)
-  && ids_eqb (so_skipped so) (ids_with (is_st Skip) ts)
-  && ids_eqb (so_xfail so) (ids_with (is_st Xfail) ts)
-  && ids_eqb (so_uxs so) (ids_with (is_st Uxsuccess) ts)
-  && ((ids_eqb (so_errors so) (ids_with failing ts) && ids_eqb (so_failures so) [])
-      || (ids_eqb (so_errors so) (ids_with incomplete ts) && ids_eqb (so_failures so) (ids_with (is_st Fail) ts)))
+  && bucket_okb dn hg (is_st Skip) (sl_skipped pre) (sl_skipped fin)
+  && bucket_okb dn hg (is_st Xfail) (sl_xfail pre) (sl_xfail fin)
+  && bucket_okb dn hg (is_st Uxsuccess) (sl_uxs pre) (sl_uxs fin)
+  && ((bucket_okb dn hg failing (sl_errors pre) (sl_errors fin)
+       && bucket_okb dn hg no_st (sl_failures pre) (sl_failures fin))
+      || (bucket_okb dn hg incomplete (sl_errors pre) (sl_errors fin)
+          && bucket_okb dn hg (is_st Fail) (sl_failures pre) (sl_failures fin)))
   (* any failed or incomplete test makes wasSuccessful() false *)
-  && (if existsb (fun r => failing (r_status r)) ts then negb (so_ok so) else true).
+  && (if existsb (fun r => failing (r_status r)) (dn ++ hg) then negb ok else true).
+
+(* what stopTestRun makes the extended result log: one block per incomplete test, any order, then stopTestRun *)
+Definition extflush_okb (hg : list rec) (log : list lev) : bool :=
+  let (bs, rest) := blocks [] log in
+  perm_eqb (list_eqb lev_eqb) bs (map bracket hg) && list_eqb lev_eqb rest [LStopRun].
 
 Definition spec_okb (i : input) (o : obs) : bool :=
-  list_eqb rec_eqb (o_dicts o) (tests parse10 (evs i))
-  && summary_okb (tests parse10 (evs i)) (o_sum o)
-  && list_eqb lev_eqb (strip (o_ext o)) (ext_expected parse10 (evs i)).
+  let dn := done_tests parse10 (evs i) in
+  let hg := hung_tests parse10 (evs i) in
+  (* StreamToDict *)
+  list_eqb rec_eqb (o_dicts o) dn
+  && perm_eqb rec_eqb (o_flush o) hg
+  (* StreamSummary *)
+  && summary_okb dn hg (o_pre o) (o_sum o) (o_ok o)
+  (* StreamToExtendedDecorator: the same after dropping the 'exists' events *)
+  && list_eqb lev_eqb (strip (o_ext o))
+       ([LStartRun] ++ flat_map bracket (done_tests parse10 (filter not_exists (evs i))))
+  && extflush_okb (hung_tests parse10 (filter not_exists (evs i))) (strip (o_extflush o)).
 
 (* ---------- the readable statement ---------- *)
-Definition Summary_spec (ts : list rec) (so : sumobs) : Prop :=
-  so_run so = List.length (filter (fun r => negb (status_eqb (r_status r) Exists)) ts)
-  /\ so_skipped so = ids_with (is_st Skip) ts
-  /\ so_xfail so = ids_with (is_st Xfail) ts
-  /\ so_uxs so = ids_with (is_st Uxsuccess) ts
-  /\ ((so_errors so = ids_with failing ts /\ so_failures so = [])
-      \/ (so_errors so = ids_with incomplete ts /\ so_failures so = ids_with (is_st Fail) ts))
-  /\ ((exists r, In r ts /\ failing (r_status r) = true) -> so_ok so = false).
+Definition Bucket_spec (dn hg : list rec) (p : status -> bool) (pre fin : list nat) : Prop :=
+  pre = ids_with p dn /\ exists added, fin = pre ++ added /\ Permutation added (ids_with p hg).
+
+Definition Summary_spec (dn hg : list rec) (pre fin : sumlists) (ok : bool) : Prop :=
+  sl_run pre = List.length (filter counted dn)
+  /\ sl_run fin = List.length (filter counted dn) + List.length (filter counted hg)
+  /\ Bucket_spec dn hg (is_st Skip) (sl_skipped pre) (sl_skipped fin)
+  /\ Bucket_spec dn hg (is_st Xfail) (sl_xfail pre) (sl_xfail fin)
+  /\ Bucket_spec dn hg (is_st Uxsuccess) (sl_uxs pre) (sl_uxs fin)
+  /\ ((Bucket_spec dn hg failing (sl_errors pre) (sl_errors fin)
+       /\ Bucket_spec dn hg no_st (sl_failures pre) (sl_failures fin))
+      \/ (Bucket_spec dn hg incomplete (sl_errors pre) (sl_errors fin)
+          /\ Bucket_spec dn hg (is_st Fail) (sl_failures pre) (sl_failures fin)))
+  /\ ((exists r, In r (dn ++ hg) /\ failing (r_status r) = true) -> ok = false).
 
 Definition Spec (i : input) (o : obs) : Prop :=
-  o_dicts o = tests parse10 (evs i)
-  /\ Summary_spec (tests parse10 (evs i)) (o_sum o)
-  /\ strip (o_ext o) = ext_expected parse10 (evs i).
+  let dn := done_tests parse10 (evs i) in
+  let hg := hung_tests parse10 (evs i) in
+  (* every completed test is reported when its final status arrives, hence in the order of those events *)
+  o_dicts o = dn
+  (* stopTestRun reports every incomplete test exactly once, in some order *)
+  /\ Permutation (o_flush o) hg
+  /\ Summary_spec dn hg (o_pre o) (o_sum o) (o_ok o)
+  /\ strip (o_ext o) = [LStartRun] ++ flat_map bracket (done_tests parse10 (filter not_exists (evs i)))
+  /\ exists hs, Permutation hs (hung_tests parse10 (filter not_exists (evs i)))
+              /\ strip (o_extflush o) = flat_map bracket hs ++ [LStopRun].
 
 (* no finding is delimited for C10 *)
 Definition findings (i : input) : list nat := [].
